@@ -68,16 +68,23 @@ def gateNames (s : MS) : List String :=
   (ks ++ cs ++ rs).foldr insertSorted []
 
 open MempoolLock in
-def mpLine (s : MS) : String :=
-  let g := gateNames s
-  s!"gate={if g.isEmpty then "-" else ",".intercalate g} pool={s.pool}"
+def mpLine (v : Ver) (s : MS) : String :=
+  if v = .v0a then
+    -- asynchronous connection: the commit request is at the gate, the unanswered mempool requests
+    -- are listed in connection (FIFO) order
+    let g := match s.cpc with | .commitGate => "commit" | _ => "-"
+    let q := s.queue.map fun p => if p.1 then s!"recheck:{p.2}" else s!"check:{p.2}"
+    s!"gate={g} queue={if q.isEmpty then "-" else ",".intercalate q} pool={s.pool}"
+  else
+    let g := gateNames s
+    s!"gate={if g.isEmpty then "-" else ",".intercalate g} pool={s.pool}"
 
 open MempoolLock in
 def mpEv (st : St) (s : MS) (e : Ev) : St × String :=
   match MempoolLock.step st.ver s e with
   | some s' =>
     let s'' := settle st.ver 64 s'
-    ({ st with ms := some s'' }, mpLine s'')
+    ({ st with ms := some s'' }, mpLine st.ver s'')
   | none => (st, "not-enabled")
 
 open MempoolLock in
@@ -167,10 +174,11 @@ def step (st : St) (toks : List String) : St × String :=
   | "mp" :: rest =>
     match kv rest "ver", (kv rest "pool").bind String.toNat? with
     | some v, some p =>
-      if v = "v0" ∨ v = "v1" then
-        let ver := if v = "v0" then MempoolLock.Ver.v0 else .v1
+      let conn := (kv rest "conn").getD "sync"
+      if (v = "v0" ∨ v = "v1") ∧ (conn = "sync" ∨ (conn = "async" ∧ v = "v0")) then
+        let ver := if conn = "async" then MempoolLock.Ver.v0a else if v = "v0" then MempoolLock.Ver.v0 else .v1
         let s : MempoolLock.MS := { pool := p }
-        ({ st with ver := ver, ms := some s }, mpLine s)
+        ({ st with ver := ver, ms := some s }, mpLine ver s)
       else (st, "bad-op")
     | _, _ => (st, "bad-op")
   | "spawncheck" :: rest =>
@@ -183,7 +191,8 @@ def step (st : St) (toks : List String) : St × String :=
     | none => (st, "bad-op")
   | "rel" :: rest =>
     match st.ms, (kv rest "what").bind parseRel with
-    | some s, some e => mpEv st s e
+    | some s, some e =>
+      if st.ver = .v0a ∧ e = .relFlush then (st, "not-enabled") else mpEv st s e
     | _, _ => (st, "bad-op")
   | _ => (st, "bad-op")
 
